@@ -113,11 +113,13 @@ let parse_bop toks = match toks with
 type world = W of (string list -> world * obs * bool)
 let rec mk_m x = W (fun t -> let ((x', o), ok) = mstep2 true x (parse_mop t) in (mk_m x', o, ok))
 let rec mk_s x = W (fun t -> let ((x', o), ok) = sstep2 true x (parse_sop t) in (mk_s x', o, ok))
-(* RwLock: the model runs in lockstep with the reader-side machine (rstep2) and with the writer-side machine (wstep2) *)
-let rec mk_r (x, y) = W (fun t -> let op = parse_rop t in
-                                  let ((x', o), ok1) = rstep2 x op in
-                                  let ((y', _), ok2) = wstep2 y op in
-                                  (mk_r (x', y'), o, ok1 && ok2))
+(* RwLock: the model runs in lockstep with the reader-side machine (rstep2), the writer-side machine (wstep2) and the
+   product of reader side, writer side and inner mutex (xstep2) *)
+let rec mk_r (x, y, z) = W (fun t -> let op = parse_rop t in
+                                     let ((x', o), ok1) = rstep2 x op in
+                                     let ((y', _), ok2) = wstep2 y op in
+                                     let ((z', _), ok3) = xstep2 z op in      (* the product of the three machines *)
+                                     (mk_r (x', y', z'), o, ok1 && ok2 && ok3))
 (* OnceCell: the harness operations `initb v` (get_or_init_blocking with a closure that completes at once) and
    `init trypc` (get_or_try_init with a closure that panics when it is called) are replayed on the model as the
    histories they are equal to: a set-like / get_or_init future that is started, polled once and dropped; a
@@ -154,7 +156,7 @@ let rec mk_b x = W (fun t -> let ((x', o), ok) = bstep2 x (parse_bop t) in (mk_b
 let init_world toks = match toks with
   | ["mutex"] -> mk_m mw2_init
   | ["sem"; n] -> mk_s (sw2_init (n_of_string n))
-  | ["rw"] -> mk_r (rw2_init, ww2_init)
+  | ["rw"] -> mk_r (rw2_init, ww2_init, x3_init)
   | ["once"] -> mk_o ow2_init
   | ["bar"; n] -> mk_b (bw2_init (n_of_string n))
   | _ -> raise (Bad ("header " ^ String.concat " " toks))
